@@ -79,9 +79,11 @@ def programs(quick):
     b1 = b0 + bodies_over(blocks1, L, pair_leaves)
     all_containers = ["top-block", "fun-param", "top-level", "top-block+global-fun", "top-level+global-fun", "method-receiver", "method-param"]
     if quick:
-        for cont in ["top-block", "fun-param", "top-level", "top-block+global-fun"]:
+        for cont in ["top-block", "fun-param", "top-level"]:
             for body in b1:
                 yield cont, with_prints(body)
+        for body in b0 + [[b] for b in blocks1]:
+            yield "top-block+global-fun", with_prints(body)
         # method receiver / parameter containers over the leaf bodies only
         for cont in ("method-receiver", "method-param"):
             for body in b0:
